@@ -51,9 +51,10 @@ CHECKS = {
             "DESIGN.md 4/C13", True),
     "C08": ("xsched", "model_checking",
             "stateless model checking: exhaustive enumeration of thread interleavings of the real library under a cooperative scheduler with iterative preemption bounding; ThreadSanitizer free-running pass as a monitor",
-            "Four scenarios (concurrent orc_init; concurrent first calls through two once-guarded wrappers using the real orc_once_enter/leave; "
+            "Five scenarios (concurrent orc_init; concurrent first calls through two once-guarded wrappers using the real orc_once_enter/leave; "
             "concurrent compile/take_code/run/free plus raw allocations of forced sizes; concurrent runs of one function while another thread "
-            "compiles and frees) are executed for every interleaving of 2 threads (preemption bound 3 quick / 5 thorough) and 3 threads "
+            "compiles and frees; concurrent emulation and native runs of one shared code object on per-thread data, interleaved at every "
+            "emulated instruction) are executed for every interleaving of 2 threads (preemption bound 3 quick / 5 thorough) and 3 threads "
             "(bound 2 / 3) at the hooked synchronisation points, each schedule in a fresh process. Oracles: no crash or deadlock, per-thread "
             "results correct, exactly-once initialisation with every caller seeing the initialised object, allocator invariants, and an end "
             "state equal to the sequential run. Failures are replayed twice before being reported.",
